@@ -490,6 +490,17 @@ Theorem additional_no_unknown_key_exposes_pattern :
   wf_verr pm no_unknown_key_error = false.
 Proof. vm_compute. repeat split; auto. Qed.
 
+(* in general, for patterns with plain reprs: a record without unknown key exposes the first identifier-like pattern
+   (in sorted order), or None when no pattern is identifier-like *)
+Theorem additional_no_unknown_key_general vv inst sty sp pts path ctx m :
+  is_false vv = true -> forallb plain_pat pts = true -> addl_message_pat [] pts = Some m ->
+  process_error (VErr VAdditional vv inst sty sp true pts path m ctx) =
+  Lib (EInvalidKey (hd_error (filter ident pts)) m_unknown_keys).
+Proof.
+  intros Hv Hp Hm. destruct (findall_addl_message_pat [] pts eq_refl Hp) as [m' [E1 E2]].
+  rewrite Hm in E1. inversion E1. subst m'. cbn [process_error]. rewrite Hv, E2. reflexivity.
+Qed.
+
 (* ------------------------------------------------------------------------------------------------ validate *)
 Section Validate.
   Variable rxm : N -> str -> bool.
